@@ -143,7 +143,7 @@ Definition descr (i : site_id) : site :=
   | S_cmd_FindRevision_idx => mk F_cmd_client "(ObjectSetList).FindRevision" KIndex "l[idx]" false 1
   | S_cmd_PackageSetPaused_panic =>
       mk "internal/cmd/pause.go" "(*Client).PackageSetPaused" KPanic
-         "panic(""This path must never be taken. Caller has to check for valid kind!"")" false 1
+         "panic(""This path must never be taken. Caller has to check for valid kind!"") [switch kind default]" false 1
   | S_cmd_tree_getTemplateContext_0 =>
       mk "internal/cmd/tree.go" "(*Tree).getTemplateContext" KIndex "pkg.Manifest.Test.Template[0]" true 1
   | S_cmd_tree_getConfig_0 => mk "internal/cmd/tree.go" "(*Tree).getConfig" KIndex "pkg.Manifest.Test.Template[0]" true 1
@@ -162,7 +162,7 @@ Definition descr (i : site_id) : site :=
       mk "internal/controllers/phase_reconciler.go" "(*PhaseReconciler).ReconcilePhase" KIndex "desiredObjects[i]" false 2
   | S_pr_prevGVK_panic =>
       mk "internal/controllers/phase_reconciler.go" "(*defaultAdoptionChecker).isControlledByPreviousRevision" KPanic
-         "panic(err)" false 1
+         "panic(err) [if err != nil]" false 1
   | S_prl_previousSets =>
       mk "internal/controllers/previous_revision_lookup.go" "(*PreviousRevisionLookup).Lookup" KIndex "previousSets[i]" false 1
   | S_imp_walkWithSymlinks =>
@@ -173,7 +173,7 @@ Definition descr (i : site_id) : site :=
       mk "internal/packages/internal/packagemanifestvalidation/helpers.go" "var newlineMatcher" KMust
          "regexp.MustCompile(`[\n\r]+`)" true 1
   | S_mv_testconfig_panic =>
-      mk "internal/packages/internal/packagemanifestvalidation/manifest.go" "ValidatePackageManifest" KPanic "panic(err)" false 1
+      mk "internal/packages/internal/packagemanifestvalidation/manifest.go" "ValidatePackageManifest" KPanic "panic(err) [if len(configErrors) == 0; if err != nil]" false 1
   | S_mv_schema_recursion =>
       mk F_mv_private "validateCustomResourceDefinitionOpenAPISchema" KRecursion "validateCustomResourceDefinitionOpenAPISchema" false 10
   | S_mv_typeInfo =>
@@ -181,7 +181,7 @@ Definition descr (i : site_id) : site :=
   | S_mv_xvalidations => mk F_mv_private "validateSchemaStuffWithXPrefixedName" KIndex "schema.XValidations[i]" true 2
   | S_mv_validatorAdapter_panic =>
       mk F_mv_private "(validatorAdapter).Validate" KPanic
-         "panic(""got options from apiextensions-apiserver but kube-openapi does not support them"")" false 1
+         "panic(""got options from apiextensions-apiserver but kube-openapi does not support them"") [if len(opts) != 0]" false 1
   | S_v0_mv_nil_envset =>
       mk F_mv_private "validateSchemaStuffWithXPrefixedName" KNilarg "nil arg 3 (*environment.EnvSet) of cel.Compile" false 1
   | S_v0_mv_nil_envloader =>
@@ -206,10 +206,10 @@ Definition descr (i : site_id) : site :=
   | S_ro_paths_i => mk F_ro "RenderObjectsWithFilter" KIndex "paths[i]" false 2
   | S_ro_paths_j => mk F_ro "RenderObjectsWithFilter" KIndex "paths[j]" false 1
   | S_col_objs_i => mk F_col "(phaseCollector).AddObjects" KIndex "objs[i]" true 1
-  | S_v0_col_panic => mk F_col "(phaseCollector).AddObjects" KPanic "panic(err)" false 1
+  | S_v0_col_panic => mk F_col "(phaseCollector).AddObjects" KPanic "panic(err) [if err != nil]" false 1
   | S_col_panic =>
       mk F_col "(phaseCollector).AddObjects" KPanic
-         "panic(fmt.Errorf(""condition-map annotation was accepted when parsing objects but is invalid: %w"", err))" false 1
+         "panic(fmt.Errorf(""condition-map annotation was accepted when parsing objects but is invalid: %w"", err)) [if err != nil]" false 1
   | S_col_entries_i => mk F_col "(phaseCollector).Collect" KIndex "entries[i]" true 1
   | S_col_entries_j => mk F_col "(phaseCollector).Collect" KIndex "entries[j]" true 1
   | S_col_phases_i => mk F_col "(phaseCollector).Collect" KIndex "phases[i]" false 1
@@ -219,37 +219,37 @@ Definition descr (i : site_id) : site :=
   | S_ps_gvks0 => mk F_conv "ManifestFromFile" KIndex "gvks[0]" false 1
   | S_ps_groupVersions => mk F_conv "ManifestFromFile" KIndex "groupVersions[i]" true 1
   | S_ps_versions => mk F_conv "ManifestFromFile" KIndex "versions[i]" false 1
-  | S_ps_init_panic => mk "internal/packages/internal/packagestructure/default.go" "init" KPanic "panic(err)" false 1
+  | S_ps_init_panic => mk "internal/packages/internal/packagestructure/default.go" "init" KPanic "panic(err) [if err != nil]" false 1
   | S_ps_parts1 => mk F_struct "(*StructuralLoader).load" KIndex "parts[1]" true 1
   | S_ps_load_recursion => mk F_struct "(*StructuralLoader).load" KRecursion "l.load" false 1
   | S_ip_probeList => mk "internal/probing/parse.go" "Parse" KIndex "probeList[i]" false 1
   | S_pp_cel_bool => mk "pkg/probing/cel.go" "(*CELProbe).probe" KAssert "val.Value().(bool)" false 1
   | S_pp_toUnstructured =>
-      mk "pkg/probing/probe.go" "toUnstructured" KPanic "panic(fmt.Sprintf(""can't convert to unstructured: %v"", err))" false 1
-  | S_bx_a_Enqueue_panic => mk F_bxa "(*OwnerStrategyAnnotation).EnqueueRequestForOwner" KPanic "panic(err)" false 1
+      mk "pkg/probing/probe.go" "toUnstructured" KPanic "panic(fmt.Sprintf(""can't convert to unstructured: %v"", err)) [if err != nil]" false 1
+  | S_bx_a_Enqueue_panic => mk F_bxa "(*OwnerStrategyAnnotation).EnqueueRequestForOwner" KPanic "panic(err) [if err != nil]" false 1
   | S_bx_a_SetOwner_assert => mk F_bxa "(*OwnerStrategyAnnotation).SetOwnerReference" KAssert "owner.(runtime.Object)" false 1
   | S_bx_a_SetOwner_idx => mk F_bxa "(*OwnerStrategyAnnotation).SetOwnerReference" KIndex "ownerRefs[ownerIndex]" false 1
   | S_bx_a_SetCtrl_assert => mk F_bxa "(*OwnerStrategyAnnotation).SetControllerReference" KAssert "owner.(runtime.Object)" false 1
   | S_bx_a_SetCtrl_idx => mk F_bxa "(*OwnerStrategyAnnotation).SetControllerReference" KIndex "ownerRefs[ownerIndex]" false 1
   | S_bx_a_Release_idx => mk F_bxa "(*OwnerStrategyAnnotation).ReleaseController" KIndex "ownerRefs[i]" true 1
-  | S_bx_a_getOwnerReferences_panic => mk F_bxa "(*OwnerStrategyAnnotation).getOwnerReferences" KPanic "panic(err)" false 1
-  | S_bx_a_setOwnerReferences_panic => mk F_bxa "(*OwnerStrategyAnnotation).setOwnerReferences" KPanic "panic(err)" false 1
+  | S_bx_a_getOwnerReferences_panic => mk F_bxa "(*OwnerStrategyAnnotation).getOwnerReferences" KPanic "panic(err) [if err != nil]" false 1
+  | S_bx_a_setOwnerReferences_panic => mk F_bxa "(*OwnerStrategyAnnotation).setOwnerReferences" KPanic "panic(err) [if err != nil]" false 1
   | S_bx_a_indexOf => mk F_bxa "(*OwnerStrategyAnnotation).indexOf" KIndex "ownerRefs[i]" true 1
   | S_bx_a_cmp_panic1 =>
-      mk F_bxa "(*OwnerStrategyAnnotation).ownerRefForCompare" KPanic ("panic(fmt.Sprintf(""" ++ NotRunnable ++ """, owner))") false 1
-  | S_bx_a_cmp_panic2 => mk F_bxa "(*OwnerStrategyAnnotation).ownerRefForCompare" KPanic "panic(err)" false 1
+      mk F_bxa "(*OwnerStrategyAnnotation).ownerRefForCompare" KPanic ("panic(fmt.Sprintf(""" ++ NotRunnable ++ """, owner)) [if !ok]") false 1
+  | S_bx_a_cmp_panic2 => mk F_bxa "(*OwnerStrategyAnnotation).ownerRefForCompare" KPanic "panic(err) [if err != nil]" false 1
   | S_bx_a_kinds0 => mk F_bxa "(*AnnotationEnqueueRequestForOwner).parseOwnerTypeGroupKind" KIndex "kinds[0]" true 2
   | S_bx_remove_i => mk F_bxc "remove" KIndex "s[i]" true 1
   | S_bx_remove_last => mk F_bxc "remove" KIndex "s[len(s) - 1]" true 1
   | S_bx_remove_slice => mk F_bxc "remove" KIndex "s[:len(s) - 1]" true 1
   | S_bx_n_Release_idx => mk F_bxn "(*OwnerStrategyNative).ReleaseController" KIndex "ownerRefs[i]" true 1
   | S_bx_n_cmp_panic1 =>
-      mk F_bxn "(*OwnerStrategyNative).ownerRefForCompare" KPanic ("panic(fmt.Sprintf(""" ++ NotRunnable ++ """, owner))") false 1
-  | S_bx_n_cmp_panic2 => mk F_bxn "(*OwnerStrategyNative).ownerRefForCompare" KPanic "panic(err)" false 1
-  | S_bx_n_referSame_panic => mk F_bxn "(*OwnerStrategyNative).referSameObject" KPanic "panic(err)" false 2
-  | S_pd_newOSList_panic => mk "internal/packages/internal/packagedeploy/adapter_objectsetlist.go" "newGenericObjectSetList" KPanic "panic(err)" false 1
+      mk F_bxn "(*OwnerStrategyNative).ownerRefForCompare" KPanic ("panic(fmt.Sprintf(""" ++ NotRunnable ++ """, owner)) [if !ok]") false 1
+  | S_bx_n_cmp_panic2 => mk F_bxn "(*OwnerStrategyNative).ownerRefForCompare" KPanic "panic(err) [if err != nil]" false 1
+  | S_bx_n_referSame_panic => mk F_bxn "(*OwnerStrategyNative).referSameObject" KPanic "panic(err) [if err != nil]" false 2
+  | S_pd_newOSList_panic => mk "internal/packages/internal/packagedeploy/adapter_objectsetlist.go" "newGenericObjectSetList" KPanic "panic(err) [if err != nil]" false 1
   | S_pd_newOSList_assert => mk "internal/packages/internal/packagedeploy/adapter_objectsetlist.go" "newGenericObjectSetList" KAssert "obj.(*corev1alpha1.ObjectSetList)" false 1
-  | S_pd_newCOSList_panic => mk "internal/packages/internal/packagedeploy/adapter_objectsetlist.go" "newGenericClusterObjectSetList" KPanic "panic(err)" false 1
+  | S_pd_newCOSList_panic => mk "internal/packages/internal/packagedeploy/adapter_objectsetlist.go" "newGenericClusterObjectSetList" KPanic "panic(err) [if err != nil]" false 1
   | S_pd_newCOSList_assert => mk "internal/packages/internal/packagedeploy/adapter_objectsetlist.go" "newGenericClusterObjectSetList" KAssert "obj.(*corev1alpha1.ClusterObjectSetList)" false 1
   | S_pd_OSList_out_i => mk "internal/packages/internal/packagedeploy/adapter_objectsetlist.go" "(*GenericObjectSetList).GetItems" KIndex "out[i]" false 1
   | S_pd_OSList_items_i => mk "internal/packages/internal/packagedeploy/adapter_objectsetlist.go" "(*GenericObjectSetList).GetItems" KIndex "a.Items[i]" true 1
@@ -371,7 +371,7 @@ Definition verdict_of (i : site_id) : verdict :=
   | S_imp_walkWithSymlinks => Library "recursion follows directory symlinks of the local source tree of `kubectl package`; depth bounded by PATH_MAX (EvalSymlinks/Lstat fail with ENAMETOOLONG / ELOOP); exercised by the cli target only through FromFolder, which does not use Index"
   | S_v0_imp_hdr => Fixed "e1805ac" F_C19b
   | S_mv_newlineMatcher | S_cel_conditionNameRegexp => ByConstruction "constant pattern, compiled at package init"
-  | S_mv_testconfig_panic => Validated "validatePackageManifestConfig (same function): the branch runs only if the config schema produced no validation error; ConvertJSONSchemaProps fails only on schemas that validation rejects"
+  | S_mv_testconfig_panic => Validated "validatePackageManifestConfig (same function): the site's identity carries its guard `if len(configErrors) == 0` - the branch runs only if the config schema produced no validation error, and ConvertJSONSchemaProps fails only on schemas that validation rejects; a different guard is a different site (seed C19-G)"
   | S_mv_schema_recursion => Library "structural recursion over the OpenAPI schema tree decoded from the manifest: depth bounded by the YAML/JSON decoder's nesting limit"
   | S_mv_typeInfo => ByConstruction "switch: `case err != nil` and `case typeInfo == nil` precede the default branch that dereferences typeInfo"
   | S_mv_xvalidations => Library "cel.Compile returns one result per rule of typeInfo.Schema.XValidations, which is schema.XValidations (apiextensions-apiserver contract)"
